@@ -184,3 +184,5 @@ def run(ctx, out):
                 out.corr("R1-node", rep["case"], mo, got)
     if obs:
         out.sample(dict(case=obs[0][0]["case"], exit=obs[0][1]))
+    import destmatrix
+    destmatrix.run(ctx, out, "C14", sources=["special"])
